@@ -387,6 +387,18 @@ def runLoadWith (ext : Bool) (main : Bytes) (files : List (Bytes × Bytes)) : St
 
 def runLoad (main : Bytes) (files : List (Bytes × Bytes)) : String := runLoadWith false main files
 
+/-- Opening the log is outside `Load.loadWith`; it can fail for reasons of the operating system
+    (a `builddir` whose name is too long, not a directory, ...).  Such a failure is accepted - the
+    model's answer is replaced by the observation - only when the manifest loads in the model AND
+    sets a `builddir` (without one the log is `.n2_db` in the project directory). -/
+def osDbToken : String := "err " ++ hexOfBytes (bytesOfString "dbopen-os-error")
+
+def runLoadObs (main : Bytes) (files : List (Bytes × Bytes)) (implLine : String) : String :=
+  let fs : Load.Fs := fun n => (files.find? (fun p => p.1 == n)).map (·.2)
+  match Load.loadWith false fs main with
+  | .ok l => if implLine == osDbToken && l.builddir.isSome then osDbToken else showLoader l
+  | .error e => showErr e
+
 /-- Drop the digits that follow a ':' (line numbers inside messages). -/
 def maskColonDigitsAux : List Char → Bool → List Char
   | [], _ => []
@@ -827,16 +839,17 @@ def handle (case impl : List String) : String :=
     | some ((main, files), []) =>
       let diag := match impl with
         | "ok" :: _ => true | "perr" :: _ => true | "err" :: _ => true | _ => false
-      LoadDrv.runLoad main files ++ mons [("loadedOrDiagnostic", diag), ("singleProducer", LoadDrv.singleProducerOk impl), ("oneNodePerLocation", LoadDrv.oneNodePerLocation impl),
-        ("includeExtendsScope", LoadDrv.runLoadWith true main files == " ".intercalate impl)]
+      let isOs := " ".intercalate impl == LoadDrv.osDbToken
+      LoadDrv.runLoadObs main files (" ".intercalate impl) ++ mons [("loadedOrDiagnostic", diag), ("singleProducer", LoadDrv.singleProducerOk impl), ("oneNodePerLocation", LoadDrv.oneNodePerLocation impl),
+        ("includeExtendsScope", isOs || LoadDrv.runLoadWith true main files == " ".intercalate impl)]
     | _ => "bad-case"
   | "loadpair" :: rest =>
     match (do let a ← LoadDrv.filesD; Proto.kw "|"; let b ← LoadDrv.filesD; pure (a, b)).run rest with
     | some (((m1, f1), (m2, f2)), []) =>
-      let r1 := LoadDrv.runLoad m1 f1
-      let r2 := LoadDrv.runLoad m2 f2
       -- monitors on the implementation's two observations
       let implParts := (" ".intercalate impl).splitOn " || "
+      let r1 := LoadDrv.runLoadObs m1 f1 ((implParts.head?.getD "").trimAscii.toString)
+      let r2 := LoadDrv.runLoadObs m2 f2 ((implParts.getLast?.getD "").trimAscii.toString)
       let spellingIndep := match implParts with
         | [a, b] =>
           let ta := (a.splitOn " ").filter (· ≠ "")
@@ -847,7 +860,7 @@ def handle (case impl : List String) : String :=
         | _ => false
       let diag := implParts.all (fun a => a.startsWith "ok" || a.startsWith "perr" || a.startsWith "err")
       let inclOk := match implParts with
-        | [a, _] => LoadDrv.runLoadWith true m1 f1 == a.trimAscii.toString
+        | [a, _] => a.trimAscii.toString == LoadDrv.osDbToken || LoadDrv.runLoadWith true m1 f1 == a.trimAscii.toString
         | _ => false
       let sp := implParts.all (fun a => LoadDrv.singleProducerOk ((a.splitOn " ").filter (· ≠ "")))
       let onl := implParts.all (fun a => LoadDrv.oneNodePerLocation ((a.splitOn " ").filter (· ≠ "")))
